@@ -277,7 +277,8 @@ class RefInflater:
     """RFC 7692 7.2.2 for one direction with the negotiated parameters of that direction."""
 
     def __init__(self, wbits=15, no_context_takeover=False, chunk=61):
-        self.wbits, self.nct, self.chunk = max(9, wbits), no_context_takeover, chunk
+        # zlib can INFLATE a raw stream with an 8 bit window (it only cannot deflate with one)
+        self.wbits, self.nct, self.chunk = max(8, wbits), no_context_takeover, chunk
         self.d = None
         self.saw_bfinal = 0
 
@@ -349,6 +350,109 @@ class RefDeflater:
         return out[:-4]
 
 
+
+# -------------------------------------------------------------------------------------------------
+# a compressor that honours ANY window size (zlib cannot deflate with a 2^8 window and silently uses 2^9)
+# -------------------------------------------------------------------------------------------------
+
+_LEN_BASE = [3, 4, 5, 6, 7, 8, 9, 10, 11, 13, 15, 17, 19, 23, 27, 31, 35, 43, 51, 59, 67, 83, 99, 115, 131, 163, 195, 227, 258]
+_LEN_EXTRA = [0] * 8 + [1] * 4 + [2] * 4 + [3] * 4 + [4] * 4 + [5] * 4 + [0]
+_DIST_BASE = [1, 2, 3, 4, 5, 7, 9, 13, 17, 25, 33, 49, 65, 97, 129, 193, 257, 385, 513, 769, 1025, 1537, 2049, 3073, 4097, 6145,
+              8193, 12289, 16385, 24577]
+_DIST_EXTRA = [0, 0, 0, 0, 1, 1, 2, 2, 3, 3, 4, 4, 5, 5, 6, 6, 7, 7, 8, 8, 9, 9, 10, 10, 11, 11, 12, 12, 13, 13]
+
+
+class _Bits:
+    def __init__(self):
+        self.out, self.acc, self.n = bytearray(), 0, 0
+
+    def put(self, value, nbits):            # LSB first (extra bits, block headers)
+        self.acc |= value << self.n
+        self.n += nbits
+        while self.n >= 8:
+            self.out.append(self.acc & 0xFF)
+            self.acc >>= 8
+            self.n -= 8
+
+    def huff(self, code, nbits):            # Huffman codes are packed starting with their most significant bit
+        for i in range(nbits - 1, -1, -1):
+            self.put((code >> i) & 1, 1)
+
+    def align(self):
+        if self.n:
+            self.put(0, 8 - self.n)
+
+
+def _fixed_litlen(b, sym):
+    if sym <= 143:
+        b.huff(0x30 + sym, 8)
+    elif sym <= 255:
+        b.huff(0x190 + sym - 144, 9)
+    elif sym <= 279:
+        b.huff(sym - 256, 7)
+    else:
+        b.huff(0xC0 + sym - 280, 8)
+
+
+class SmallWindowDeflater:
+    """RFC 1951 fixed-Huffman LZ77 compressor written out in Python whose back-references never reach further than
+    2^wbits octets (RFC 7692 7.2.1 with the negotiated window honoured exactly, also for 2^8).  Context takeover:
+    the last 2^wbits octets of the earlier messages stay referable."""
+
+    def __init__(self, wbits=8, no_context_takeover=False):
+        self.window, self.nct = 1 << wbits, no_context_takeover
+        self.hist = b""
+        self.max_distance_used = 0
+
+    def deflate(self, data):
+        if self.nct:
+            self.hist = b""
+        buf = self.hist + bytes(data)
+        start = len(self.hist)
+        index = {}
+        for i in range(max(0, start - self.window), start):
+            index.setdefault(buf[i:i + 3], []).append(i)
+        b = _Bits()
+        b.put(0, 1)              # BFINAL = 0
+        b.put(1, 2)              # BTYPE = 01 fixed Huffman
+        i, n = start, len(buf)
+        while i < n:
+            best_len, best_dist = 0, 0
+            if i + 3 <= n:
+                for j in reversed(index.get(buf[i:i + 3], ())):
+                    dist = i - j
+                    if dist > self.window:
+                        break
+                    m = 3
+                    while m < 258 and i + m < n and buf[j + m] == buf[i + m]:
+                        m += 1
+                    if m > best_len:
+                        best_len, best_dist = m, dist
+                        if m == 258:
+                            break
+            if best_len >= 3:
+                k = max(x for x in range(29) if _LEN_BASE[x] <= best_len)
+                _fixed_litlen(b, 257 + k)
+                b.put(best_len - _LEN_BASE[k], _LEN_EXTRA[k])
+                dk = max(x for x in range(30) if _DIST_BASE[x] <= best_dist)
+                b.huff(dk, 5)
+                b.put(best_dist - _DIST_BASE[dk], _DIST_EXTRA[dk])
+                self.max_distance_used = max(self.max_distance_used, best_dist)
+                step = best_len
+            else:
+                _fixed_litlen(b, buf[i])
+                step = 1
+            for q in range(i, i + step):
+                if q + 3 <= n:
+                    index.setdefault(buf[q:q + 3], []).append(q)
+            i += step
+        _fixed_litlen(b, 256)    # end of block
+        b.put(0, 3)              # empty stored block (BFINAL 0, BTYPE 00): its 00 00 ff ff is what 7.2.1 strips
+        b.align()
+        self.hist = buf[-self.window:]
+        return bytes(b.out)
+
+
 def selfcheck():
     """Anchor on the octet sequences printed in RFC 7692 7.2.3.x."""
     inf = RefInflater(15, False)
@@ -387,6 +491,20 @@ def selfcheck():
     try:
         RefInflater(12).inflate(p)
         raise AssertionError("distance beyond the window accepted")
+    except RefInflateError:
+        pass
+    # the small-window compressor: honest about the window (also 2^8), readable by zlib's inflater of the same size
+    for wb in (8, 9, 12):
+        for nct in (False, True):
+            de, inf = SmallWindowDeflater(wb, nct), RefInflater(wb, nct, chunk=7)
+            a, b2 = rng.randbytes(200), rng.randbytes((1 << wb) + 40)
+            for m in (b"", b"a", a + a, b2 + b2, b"Hello" * 50, a, b2[:100] + a[:100], bytes(range(256)) * 3, a):
+                assert inf.inflate(de.deflate(m)) == m, (wb, nct, len(m))
+            assert 150 <= de.max_distance_used <= (1 << wb), (wb, de.max_distance_used)
+    p = RefDeflater(10).deflate(rng.randbytes(300) * 2)       # a 2^10 zlib window reaches back 300 octets (2^9: at most 250) ...
+    try:
+        RefInflater(8, chunk=7).inflate(p)                     # ... which a 2^8 window cannot serve
+        raise AssertionError("distance beyond a 2^8 window accepted")
     except RefInflateError:
         pass
     # header grammar / negotiation judge
